@@ -53,6 +53,8 @@ type c36PartState struct {
 
 type c36Layout struct {
 	pstate     map[int32]*c36PartState
+	startHint  *int64 // first offset of the next partition started by c36GenPartition (consumed by it)
+	Aligned    int    // partitions (target and decoy) whose first offset was placed relative to an earlier partition's segment
 	Case       int
 	Bucket     string
 	Namespace  string
@@ -96,6 +98,10 @@ func c36GenPartition(rng *rand.Rand, s3 *c36S3, l *c36Layout, topic string, part
 		st.step = int64(1 + rng.Intn(2000))
 		if rng.Intn(5) == 0 {
 			st.step = 0
+		}
+		if l.startHint != nil {
+			st.off, l.startHint = *l.startHint, nil
+			l.Aligned++
 		}
 		if topic == l.Topic {
 			l.pstate[part] = st
@@ -225,6 +231,9 @@ func c36GenLayout(rng *rand.Rand, s3 *c36S3, caseNo int, thorough bool) *c36Layo
 	for _, p := range l.Parts {
 		pat := []string{"mono", "mono", "jitter", "jitter", "const"}[rng.Intn(5)]
 		l.TSPattern[p] = pat
+		if len(l.Segs) > 0 && rng.Intn(3) != 0 {
+			l.startHint = c36AlignedStart(rng, l.Segs, p)
+		}
 		segs := c36GenPartition(rng, s3, l, l.Topic, p, pat, 1+rng.Intn(maxSeg), true)
 		l.Segs = append(l.Segs, segs...)
 	}
@@ -239,6 +248,9 @@ func c36GenLayout(rng *rand.Rand, s3 *c36S3, caseNo int, thorough bool) *c36Layo
 			continue
 		}
 		l.Decoys = append(l.Decoys, d)
+		if rng.Intn(3) == 0 {
+			l.startHint = c36AlignedStart(rng, l.Segs, 1<<30)
+		}
 		l.DecoySegs = append(l.DecoySegs, c36GenPartition(rng, s3, l, d, l.Parts[rng.Intn(len(l.Parts))], "mono", 1+rng.Intn(2), false)...)
 	}
 	for _, s := range l.Segs {
@@ -265,6 +277,100 @@ func c36GenLayout(rng *rand.Rand, s3 *c36S3, caseNo int, thorough bool) *c36Layo
 		l.ResCache, l.DiscTTL, l.Manifest = false, -1, ""
 	}
 	return l
+}
+
+// c36AlignedStart chooses the first offset of a partition that starts above 0
+// (retention trimmed it, or it is simply of another size than its neighbours)
+// relative to a segment of an earlier partition: mostly the last completed
+// segment of the partition listed right before it, otherwise any earlier
+// segment; strictly inside that segment's offset range, or on / next to its
+// borders. Offsets of different partitions are independent, so every choice is
+// a legal layout.
+func c36AlignedStart(rng *rand.Rand, segs []*c36Seg, part int32) *int64 {
+	var prev []*c36Seg // completed segments of the closest partition below part
+	for _, s := range segs {
+		if !s.Completed || s.Part >= part {
+			continue
+		}
+		if len(prev) > 0 && prev[0].Part != s.Part {
+			if s.Part < prev[0].Part {
+				continue
+			}
+			prev = prev[:0]
+		}
+		prev = append(prev, s)
+	}
+	var s *c36Seg
+	switch {
+	case len(prev) > 0 && rng.Intn(4) != 0:
+		s = prev[len(prev)-1]
+		for _, x := range prev {
+			if x.Base > s.Base {
+				s = x
+			}
+		}
+	default:
+		s = segs[rng.Intn(len(segs))]
+	}
+	first, last := s.Recs[0].Off, s.Recs[len(s.Recs)-1].Off
+	var off int64
+	switch rng.Intn(12) {
+	case 0:
+		off = first
+	case 1:
+		off = last + 1
+	case 2:
+		off = last
+	case 3:
+		off = first + 1
+	default:
+		off = first + 1 + int64(rng.Intn(int(last-first)+1)) // (first, last+1]
+		if off > last && last > first {
+			off = last
+		}
+	}
+	if off < 0 {
+		off = 0
+	}
+	return &off
+}
+
+// c36ForeignSuccessors returns, per completed target segment key, the base
+// offset of the entry that follows it in a listing sorted by (topic, partition,
+// base offset) when that entry belongs to another partition or topic and its
+// base offset lies strictly above the segment's base and not above its last
+// offset (sameTopic selects successors of the same topic / of another topic):
+// the layouts in which bounding a segment by its listing successor
+// without regard to the partition understates the segment's offsets.
+func c36ForeignSuccessors(l *c36Layout, sameTopic bool) map[string]int64 {
+	var all []*c36Seg
+	for _, set := range [][]*c36Seg{l.Segs, l.DecoySegs} {
+		for _, s := range set {
+			if s.Completed {
+				all = append(all, s)
+			}
+		}
+	}
+	sort.SliceStable(all, func(i, j int) bool {
+		if all[i].Topic != all[j].Topic {
+			return all[i].Topic < all[j].Topic
+		}
+		if all[i].Part != all[j].Part {
+			return all[i].Part < all[j].Part
+		}
+		return all[i].Base < all[j].Base
+	})
+	out := map[string]int64{}
+	for i := 0; i+1 < len(all); i++ {
+		a, b := all[i], all[i+1]
+		if a.Topic != l.Topic || (a.Topic == b.Topic && a.Part == b.Part) || (a.Topic == b.Topic) != sameTopic {
+			continue
+		}
+		if b.Base > a.Base && b.Base <= a.Recs[len(a.Recs)-1].Off {
+			out[a.Key] = b.Base
+		}
+	}
+	return out
 }
 
 // c36Grow models the broker going on while the SQL server runs: in-flight
@@ -458,6 +564,31 @@ func c36GenQuery(rng *rand.Rand, l *c36Layout) *c36Query {
 			a, b = b, a
 		}
 		q.OffMin, q.OffMax = &a, &b
+	}
+	if rng.Intn(3) == 0 {
+		// a lower offset bound inside the last completed segment of one partition (the segment
+		// whose upper end no later segment of its own partition delimits), open above or closed
+		// at/after the segment's end; the partition filter, if any, names that partition
+		p := l.Parts[rng.Intn(len(l.Parts))]
+		if len(l.Parts) > 1 && rng.Intn(3) != 0 {
+			p = l.Parts[rng.Intn(len(l.Parts)-1)] // a partition after which the listing goes on with another one
+		}
+		var sg *c36Seg
+		for _, s := range l.Segs {
+			if s.Completed && s.Part == p && (sg == nil || s.Base > sg.Base) {
+				sg = s
+			}
+		}
+		if sg != nil {
+			q.OffMin = c36Ptr64(sg.Base + int64(rng.Intn(len(sg.Recs))))
+			q.OffMax = nil
+			if rng.Intn(3) == 0 {
+				q.OffMax = c36Ptr64(sg.Recs[len(sg.Recs)-1].Off + int64(rng.Intn(3)))
+			}
+			if q.Part != nil {
+				q.Part = c36Ptr32(p)
+			}
+		}
 	}
 	switch rng.Intn(10) {
 	case 0:
